@@ -455,7 +455,7 @@ class Checker(object):
 def run(rep):
     M.NODE_MONITOR.install()
     ck = Checker(rep)
-    n = 320 if rep.tier == 'quick' else 30000
+    n = 220 if rep.tier == 'quick' else 30000
     j = 0
     while j < n and not rep.out_of_time():
         ck.run_case(j + rep.shard * 1000003 % 64)
